@@ -266,6 +266,17 @@ class ModelLoader(object):
             if not isinstance(stmt, CreateAssociationStmt):
                 continue
             
+            for kind, keys in ((stmt.source_kind, stmt.source_keys),
+                               (stmt.target_kind, stmt.target_keys)):
+                metaclass = metamodel.find_metaclass(kind)
+                for key in keys:
+                    if metaclass.attribute_type(key) is None:
+                        raise ParsingException("%s:%d:%s refers to an unknown "\
+                                               "attribute %s.%s" % (stmt.filename,
+                                                                    stmt.lineno,
+                                                                    stmt.rel_id,
+                                                                    kind, key))
+
             ass = metamodel.define_association(stmt.rel_id,
                                          stmt.source_kind,
                                          stmt.source_keys,
